@@ -71,6 +71,10 @@ def project(cs, evs, maxentries):
                     continue
                 n = None if count is None else (int(count) if count != "?" and count else "?")
                 count = None
+                # an incremental search opens: what was being typed is what leaving it without a match brings back
+                if b.get("local") != "isearch" and e.get("local") == "isearch" and not b["minibuf"]:
+                    mini_open = b["line"]
+                    mini_text = []
                 # minibuffer handling (incremental / non-incremental search): the edited line is hidden meanwhile
                 if not b["minibuf"] and e["minibuf"]:
                     mini_open = b["line"]
